@@ -2707,29 +2707,33 @@ impl Term<Name> {
                     .map(|(_, term)| term.pierce_no_inlines_ref())
                     .collect_vec();
                 if applies.len() == func.arity() && func.is_error_safe(&args) {
-                    changed = true;
-                    let applied_term =
-                        applies
-                            .into_iter()
-                            .fold(Term::Builtin(*func), |acc, (arg_id, arg)| {
-                                context.inlined_apply_ids.push(arg_id);
-                                acc.apply(arg.pierce_no_inlines_ref().clone())
-                            });
+                    let applied_term = applies
+                        .iter()
+                        .fold(Term::Builtin(*func), |acc, (_, arg)| {
+                            acc.apply(arg.pierce_no_inlines_ref().clone())
+                        });
 
-                    // The check above is to make sure the program is error safe
-                    let eval_term: Term<Name> = Program {
+                    // The check above rules out the common failures, not all of them (sizes and
+                    // indices out of range, integers beyond the machine word): a call that fails
+                    // is left in place, to fail at run time if it is ever reached.
+                    let result = Program {
                         version: (1, 0, 0),
                         term: applied_term,
                     }
                     .to_named_debruijn()
                     .unwrap()
                     .eval(ExBudget::default())
-                    .result()
-                    .unwrap()
-                    .try_into()
-                    .unwrap();
+                    .result();
 
-                    *self = eval_term;
+                    if let Ok(value) = result {
+                        changed = true;
+
+                        for (arg_id, _) in applies {
+                            context.inlined_apply_ids.push(arg_id);
+                        }
+
+                        *self = value.try_into().unwrap();
+                    }
                 }
             }
             Term::Constr { .. } => todo!(),
